@@ -353,7 +353,7 @@ func runChecker(c *hx.Ctx) {
 			})
 		}
 	}
-	for i := 0; i < c.N(60, 400); i++ {
+	for i := 0; i < c.N(60, 300); i++ {
 		u, h := uint32(c.Rng.Intn(5)), uint32(c.Rng.Intn(5))
 		s := structured(c, u, h, 6+c.Rng.Intn(30), "sf")
 		b := []byte(s)
